@@ -54,7 +54,12 @@ var zzReqHdrMenus = []zzReqHdrsAtom{
 	{list: []string{"AUTHORIZATION", "*"}, asterisk: true, auth: true},
 	{list: []string{"X-B", "x-a"}, names: []string{"x-a", "x-b"}},
 	{list: []string{"Authorization", "x-a"}, auth: true, names: []string{"x-a"}},
+	// short names: the rendered allow-list "b,x-a" is as long as a quick-tier field line,
+	// so that "the request's line has the length / shape of the configured list" is inside the bounds
+	{list: []string{"x-a", "B"}, names: []string{"b", "x-a"}},
 }
+
+const zzShortReqHdrMenu = 6
 
 var zzRespHdrMenus = []zzRespHdrsAtom{
 	{},
@@ -91,7 +96,7 @@ type zzLimits struct {
 
 func zzQuickLimits() zzLimits {
 	if zzTier() >= 1 {
-		return zzLimits{origins: 8, methods: 5, reqHdrs: 6, respHdrs: 5, maxAges: 6}
+		return zzLimits{origins: 8, methods: 5, reqHdrs: 7, respHdrs: 5, maxAges: 6}
 	}
 	return zzLimits{origins: 4, methods: 3, reqHdrs: 5, respHdrs: 3, maxAges: 3}
 }
